@@ -115,8 +115,37 @@ def bnRandModel (w cap : Nat) (x : Drbg.Ctx) (neg : Bool) (bits0 : Nat) : Option
     let dp := if bits > 0 ∧ digits > 0 then dp.set (digits - 1) (dp.getD (digits - 1) 0 % 2 ^ bits) else dp
     some (bnTrim { neg := neg, dp := dp }, x')
 
+/-- bn_rand_mod for a bound b ≥ 2: draw bits(b) + RAND_DIST (= 40) bits, reduce, draw again while the residue is zero -/
+def bnRandModModel (w cap : Nat) (b : Nat) : Nat → Drbg.Ctx → Option Nat
+  | 0, _ => none
+  | fuel + 1, x =>
+    match bnRandModel w cap x false (bitLen b + 40) with
+    | none => none
+    | some (a, x') =>
+      let r := Relic.Model.val (2 ^ w) a.dp % b
+      if r == 0 then bnRandModModel w cap b fuel x' else some r
+
 def handle (w cap : Nat) (op : String) (args : List String) (got : String) : Option Verdict :=
   match op with
+  | "bn_rand_mod" =>
+    match args with
+    | [seed, bs] => do
+      let seed ← parseBytes seed
+      let b ← parseHexNat bs
+      if b < 2 then none else
+      let x ← Drbg.randSeed mcfg Drbg.init seed
+      let m := match bnRandModModel w cap b 64 x with
+        | some r => fmtIntNF w r
+        | none => "err"
+      -- spec: an integer in [1, b) in normal form
+      let okSpec : Bool := match (got.splitOn ":u") with
+        | [v, _] => match parseHexInt v with
+          | some z => decide (1 ≤ z ∧ z < (b : Int)) && got == fmtIntNF w z
+          | none => false
+        | _ => got == "err" && (bitLen b + 40 + w - 1) / w > cap
+      some { model := m, spec := if okSpec then [got] else ["<an integer in [1, " ++ bs ++ ")>"],
+             tags := ["rand_mod", if b < 2 ^ w then "rand_mod.small" else "rand_mod.multi"] }
+    | _ => none
   | "drbg" =>
     let m := String.intercalate " " (runToks modelTok Drbg.init args)
     let s := String.intercalate " " (runToks specTok none args)
